@@ -62,6 +62,7 @@ CHECKS = {
             'Tie: the C05 machinery with an alphabet of every way to present credentials (LOGIN, PLAIN, LOGIN mech, authzid with/without admin role, cancel, malformed base64, unknown mechanism) in three TLS/peer '
             'configurations, identity observed through LIST; random credential byte strings never authenticate; the ManageSieve listener is driven with failed/successful AUTHENTICATE sequences against the Sieve model.',
             'Real-socket leg: IMAPServer and ManageSieveServer on loopback with a real TLS handshake; STARTTLS plus further commands written in one clear-text segment are never acted on after the handshake. '
+            'C09_starttls_no_injection (model StartTls): what is written in clear text behind an accepted STARTTLS has no effect on the protected session; the as-found behaviour is stated as starttls_injection_as_found. '
             'Trusted: as C05. Credential verification (pysasl, password hashing) is an oracle: which credentials verify is known to the fixture, not modelled. TLS is a stub.',
             'DESIGN.md section 6 C09'),
     'C19': ('Lean 4 theorems (gate, well-formedness invariant, refinement to a name-to-bytes map with one active name, isolation) + exhaustive small-scope and random differential correspondence',
@@ -122,6 +123,7 @@ CHECKS = {
             'C16_no_lost_wakeup (parked on an unfired listener implies everything consumed) and C16_progress (from any reachable state at most 6 own steps deliver everything) are proved for the repaired wait; C16_lost_wakeup_as_found is the decide-checked '
             'witness against the code as found. Tie: a real idling connection parked inside drain() so that changes land mid-notification; every change and release is replayed as model labels and "everything delivered" compared at quiescence. '
             'Monitor: what the idling client was told (count, flags per position; C01 shadow rules) equals the mailbox with no DONE and no further activity; DONE -> OK, anything else -> BAD; maildir with real 1 s polling.',
+            'C16_done / C16_only_done: the line that ends IDLE is exactly a case variant of DONE followed by CRLF or LF (model Done.parseDone, diffed against IdleCommand.parse_done on near-DONE lines). '
             'Trusted: as C20. The idler\'s steps between parks are taken as atomic (asyncio is cooperative); maildir has no model (polling), monitor only.',
             'DESIGN.md section 6 C16'),
     'C14': ('Lean 4 conservation invariant over MOVE under cancellation with a second session + fault enumeration at every park point of the real command',
@@ -134,6 +136,7 @@ CHECKS = {
             'C15_prefix, C15_full, C15_recover, C15_crash_anywhere are proved: after any history and a crash at any system-call boundary, recovery keeps every acknowledged message under its UID, the UID list duplicate-free, next-UID monotone, UIDVALIDITY unchanged. '
             'Tie: the recorded system-call trace of each command must equal MaildirFS.ops and the UIDs served after each crash point must equal listing (recover prefix). Monitor: a child process exits instead of its k-th filesystem operation for EVERY k of each '
             'history (APPEND/STORE/COPY/MOVE/EXPUNGE/CREATE/RENAME/SUBSCRIBE/CHECK), a fresh server is started and compared with the acknowledged state; layouts ++/fs; temp dir on the same / another filesystem.',
+            'C15_next_monotone / C15_next_monotone_recover / C15_append_uid_fresh: the next-UID counter of a folder never goes back, at any crash point or restart, and every UID handed out is the counter. '
             'Trusted: as C20. Partial: crash = process kill between Python-level filesystem calls (no fsync/power-loss, no torn writes, no foreign writers); the restart is observed after lock-file expiration; the model covers append/expunge/flags/cleanup on one folder.',
             'DESIGN.md section 6 C15'),
 }
